@@ -110,7 +110,19 @@ def canon(x, depth=0):
 
 
 def outcome_of(fn, args, keep=None):
-    """canonical outcome of one call: value / serialisation / repr, or the exception type"""
+    """canonical outcome of one call: value / serialisation / repr, or the exception type (what the library prints goes to a sink)"""
+    import io
+    import sys
+
+    old = sys.stdout
+    sys.stdout = io.StringIO()
+    try:
+        return _outcome_of(fn, args, keep)
+    finally:
+        sys.stdout = old
+
+
+def _outcome_of(fn, args, keep=None):
     try:
         r = fn(*args)
     except Exception as e:
@@ -121,10 +133,13 @@ def outcome_of(fn, args, keep=None):
     # objects: what a user would observe through the public serialisers as well
     items = r if isinstance(r, (list, tuple)) else [r]
     for it in items[:4]:
-        for m in ("as_bits", "as_bytes"):
+        for m in ("as_bits", "as_bytes", "as_xml"):
             if hasattr(it, m) and not isinstance(it, (bytes, bytearray)) and not isinstance(it, type):
                 try:
-                    out.append([m, canon(getattr(it, m)())])
+                    sv = getattr(it, m)()
+                    if isinstance(sv, str) and " at 0x" in sv:
+                        continue  # text that renders an object's address (a memoryview slice kept from an off-contract argument): not comparable
+                    out.append([m, canon(sv)])
                 except Exception as e:
                     out.append([m, "raised", type(e).__name__])
         if hasattr(it, "__dict__") and not isinstance(it, type):
@@ -409,6 +424,11 @@ def _build_registry():
           "pdu:" + {"Rate12Data": "r12", "Rate34Data": "r34", "Rate1Data": "r1"}[_nm], "int:0:5", "int:0:65535")
     for _nm, _path, _spec in (("HSTRP", "hytera.pdu.hstrp:HSTRP", "vecp:3242"), ("HRNP", "hytera.pdu.hrnp:HRNP", "vecp:7e"), ("HDAP", "hytera.pdu.hdap:HDAP", "vecp:02|08|09|11|82|88|89|91")):
         E(f"{_nm}(from parsed attributes, seeded defaults)", (lambda p: lambda d, om: _reconstruct(L(p).from_bytes(d), om))(_path), _spec, "int:0:65535")
+    E("LRRP(rebuilt from parsed parts via get_token)", lambda d, rq: _lrrp_rebuild(d, rq), "vecm", "bool")
+    E("TalkerAliasDataFormat.decode", lambda f, d: list(L("etsi.layer3.elements.talker_alias_data_format:TalkerAliasDataFormat"))[f % 4].decode(d), "int:0:3", "bytes:0-8")
+    E("TalkerAliasDataFormat.encode", lambda f, d: list(L("etsi.layer3.elements.talker_alias_data_format:TalkerAliasDataFormat"))[f % 4].encode(d.decode("latin")), "int:0:3", "bytes:0-8")
+    E("parse_hytera_data", lambda d: type(L("utils.parsing:parse_hytera_data")(d)).__name__, "vec:1-200")
+    E("try_parse_packet", lambda d: type(_quiet(lambda: L("utils.parsing:try_parse_packet")(d), err=True)).__name__, "vec:1-200")
     # stateful parts of the library, each on a FRESH object per call (so the pristine oracle applies): they drag the handlers' and the
     # tracker's code paths into the histories
     E("RRSDatagramProtocol(fresh).datagram_received", lambda d: _fresh_rrs(d), "vecp:3242")
@@ -425,9 +445,7 @@ def _build_registry():
     E("numpy_array_to_int", lambda a: L(U + ":numpy_array_to_int")(a), "np:1-40")
 
 
-# LocationProtocol's default `gpsdata` is GPSData.zero(), evaluated when the module is imported: it carries the date of the import by design (see
-# DESIGN 8.3, GPSData.zero); the property's clock clause is about parsing, so that one default is never the thing compared
-RECON_NEVER_OMIT = {("LocationProtocol", "gpsdata")}
+RECON_NEVER_OMIT = set()  # (class name, parameter) pairs whose default is never the thing compared; empty since D17 was repaired
 RECON_ALIASES = {"dpf": "data_packet_format", "flco": "full_link_control_opcode", "fid": "feature_set_id", "opcode": "specific_service"}
 
 
@@ -456,6 +474,24 @@ def _reconstruct(obj, omit):
                 continue
         kw[name] = getattr(obj, attr)
     return [cls(**kw), sorted(kw)]
+
+
+def _lrrp_rebuild(d, is_request):
+    """parse a document, then assemble a new one of the same type from its parts through the public builder (LRRP.get_token by element name, falling
+    back to the element id), serialise it"""
+    MB = L("motorola.mbxml:MBXML")
+    LR = L("motorola.lrrp:LRRP")
+    out = []
+    for doc in MB.from_bytes(d):
+        new = LR(document_id=doc.id)
+        for p in doc.parts:
+            try:
+                t = new.get_token(name=p.name, value=p.value, attributes={}, is_request=is_request)
+            except ModuleNotFoundError:
+                t = new.get_token(name=p.token_id, value=p.value, attributes={}, is_request=not is_request)
+            new.parts.append(t)
+        out.append(new)
+    return out
 
 
 def _fresh_rrs(d):
@@ -514,16 +550,18 @@ def _fresh_storage(a):
     return [len(st), r is r2, r.callsign, r.attr("k"), r.dmr_id, r.address_in]
 
 
-def _quiet(f):
+def _quiet(f, err=False):
     import io
     import sys
 
-    old = sys.stdout
+    old, olde = sys.stdout, sys.stderr
     sys.stdout = io.StringIO()
+    if err:
+        sys.stderr = io.StringIO()  # (the dispatcher prints the traceback of a parser that failed)
     try:
         return f()
     finally:
-        sys.stdout = old
+        sys.stdout, sys.stderr = old, olde
 
 
 def _rate_ctor(mod, name, nbytes, data, dbsn, crc9, last):
@@ -708,11 +746,37 @@ class ArgGen:
         except Exception:
             return None
 
+    HDAP_OPCODES = {0x02: "hytera.pdu.radio_control_protocol:RCPOpcode", 0x08: "hytera.pdu.location_protocol:LocationProtocolSpecificService",
+                    0x09: "hytera.pdu.text_message_protocol:TMPService", 0x11: "hytera.pdu.radio_registration_service:RRSTypes"}
+
+    def hdap_other_opcode(self, h):
+        """a captured HDAP message with its opcode replaced by another member of its service's own opcode list (the captures hold a handful of
+        the opcodes each service defines): same header, same body octets, another message variant for the parser to dispatch on"""
+        b = bytearray.fromhex(h)
+        # HDAP travels alone or inside HSTRP (0x32 0x42 ...) / HRNP (0x7e ...): find the service octet by its place before a known opcode
+        for off in range(0, min(len(b) - 3, 40)):
+            path = self.HDAP_OPCODES.get(b[off] & 0x7F)
+            if path is None:
+                continue
+            try:
+                vals = [m.value if isinstance(m.value, int) else int.from_bytes(m.value, "big") for m in L(path)]
+            except Exception:
+                return None
+            cur_be, cur_le = int.from_bytes(b[off + 1:off + 3], "big"), int.from_bytes(b[off + 1:off + 3], "little")
+            if cur_be in vals or cur_le in vals:
+                order = "big" if cur_be in vals else "little"
+                b[off + 1:off + 3] = self.r.choice(vals).to_bytes(2, order)
+                return b.hex()
+        return None
+
     def vecp(self, prefixes):
         c = [v for v in self.vec if any(v.startswith(p) for p in prefixes)]
         if not c or self.r.random() < 0.08:
             c = self.vec
-        return self.flip_hex(self.r.choice(c), self.r.choice([0, 0, 0, 1, 2]))
+        v = self.r.choice(c)
+        if self.r.random() < 0.25:
+            v = self.hdap_other_opcode(v) or v
+        return self.flip_hex(v, self.r.choice([0, 0, 0, 1, 2]))
 
     def args(self, specs):
         """arguments for one call; now and then octets travel in another object exporting the buffer protocol (what the bytes-typed
@@ -784,7 +848,7 @@ class ArgGen:
             b.frombytes(bytes.fromhex(self.flip_hex(self.burst(), r.choice([0, 0, 1, 1, 2]))))
             return {"ba": b.to01()}
         if kind == "vec":
-            c = self.by_len.get(int(rest)) or self.vec
+            c = (self.by_len.get(int(rest)) if rest.isdigit() else None) or self.vec  # "vec:72": vectors of that length; otherwise any vector
             return {"b": self.flip_hex(r.choice(c), r.choice([0, 0, 1, 2]))}
         if kind == "vecp" and rest == "3242" and r.random() < 0.5:
             # byte-level HSTRP grammar (the C17 peer encoder): option lists of 1-5 options, exact repeats included, optional payload
@@ -870,21 +934,11 @@ class ArgGen:
         if kind in ("r12", "r34", "r1"):
             return c04.make(kind + r.choice(["c", "cl"]), r)
         if kind == "csbk":
-            if r.random() < 0.5:
-                c = air.CSBK(csbko=air.CsbkOpcodes.PreambleCSBK, blocks_to_follow=r.randrange(256), source_address=r.getrandbits(24), target_address=r.getrandbits(24))
-            else:
-                c = air.CSBK(csbko=air.CsbkOpcodes.BSOutboundActivation, bs_address=r.getrandbits(24), source_address=r.getrandbits(24))
-            return c.as_bits().to01()
+            # preamble, or any other opcode the parser implements (checks/air.py)
+            return air.csbk_pdu(r, pre=r.random() < 0.35, btf=r.randrange(256)).as_bits().to01()
         if kind == "flc":
-            from bitarray import bitarray
-            from bitarray.util import int2ba
-
-            flco = r.choice([air.FLCOs.GroupVoiceChannelUser, air.FLCOs.UnitToUnitVoiceChannelUser])
-            body = bitarray([0, 0]) + flco.as_bits() + int2ba(0, 8) + int2ba(r.getrandbits(8) & 0b11110011, 8) + int2ba(r.getrandbits(24), 24) + int2ba(r.getrandbits(24), 24)
-            full = air.ReedSolomon1294.generate(body.tobytes(), bytes.fromhex("969696"))
-            b = bitarray()
-            b.frombytes(full)
-            return b.to01()
+            # the whole opcode list (group / unit-to-unit voice, talker alias header and blocks, GPS info), as voice LC header or as terminator
+            return air.lc_bits(r, r.choice([air.DataTypes.VoiceLCHeader, air.DataTypes.VoiceLCHeader, air.DataTypes.TerminatorWithLC])).to01()
         raise KeyError(kind)
 
     def burst(self):
@@ -957,6 +1011,7 @@ while True:
     pid = os.fork()
     if pid == 0:
         os.close(r)
+        os.dup2(os.open(os.devnull, os.O_WRONLY), 1)  # whatever the library prints must not land in the reply stream of this server
         try:
             res = c19._alone(req)
         except BaseException as e:
